@@ -1,4 +1,5 @@
 from .. import common
+from . import _tplm
 
 MANIFEST = {
     "text": "Lean 4 theorems over matchF, a fuel-structured transcription of every Match method of tpl/matcher/match.go "
@@ -31,4 +32,8 @@ def run(ctx):
         "return procedures are total functions of kind RetProc (no ListRetProc, no panics/Dyn errors)",
         "token list = what the real tpl/scanner yields for the input (Pos/End passed to the model)",
     ]
-    common.standard(ctx, "GopModel.Props.C29", "c29", 2400, 45000, RULE, driver="drv_tplmatch")
+    common.standard(ctx, "GopModel.Props.C29", "c29", 2400, 45000, RULE, driver=_tplm.DRIVER,
+                    post=lambda c, outdir, dis: _tplm.promote_core_mismatch(c, dis, "semantics", "c29"))
+
+
+replay = _tplm.replay
